@@ -371,12 +371,17 @@ class Stream(object):
         Returns:
             str: ``chunked``, ``length``, ``close``.
         '''
-        chunked_match = re.match(
-            r'chunked($|;)',
-            response.fields.get('Transfer-Encoding', '')
-        )
+        # Transfer coding names are case-insensitive and "chunked" is the
+        # final coding when several are applied (RFC 7230 3.3.1, 3.3.3, 4).
+        if 'Transfer-Encoding' in response.fields:
+            codings = ','.join(
+                response.fields.get_list('Transfer-Encoding')).split(',')
+        else:
+            codings = ['']
 
-        if chunked_match:
+        final_coding = codings[-1].split(';', 1)[0].strip().lower()
+
+        if final_coding == 'chunked':
             return 'chunked'
         elif 'Content-Length' in response.fields:
             return 'length'
